@@ -1,13 +1,115 @@
-(** * C04 — proofs about the model of VecDefs.v (work in progress) *)
-From Coq Require Import NArith List Bool Lia.
-From LibaV Require Import C04.VecDefs.
+(** * C04 — every operation of the vector and of the buffer refines the abstract sequence,
+      for every index and count, and the invariants hold along every history *)
+From Coq Require Import ZArith NArith List Bool Lia Arith Sorting.Sorted Sorting.Permutation.
+From LibaV Require Import C04.VecDefs C04.VecSpec C04.ListAux C04.SwapProofs C04.ArrProofs C04.SortProofs.
 Import ListNotations.
 Local Open Scope N_scope.
 
-Lemma slot_of_mul : forall siz i, 0 < siz -> slot_of siz (siz * i) = Ok i.
+Ltac Zify.zify_post_hook ::= Z.to_euclidean_division_equations.
+
+(** ** growth policy of a_vec_setm (with FIX C04-5) *)
+Lemma pow_fuel : HALF * 2 ^ 128 < 3 ^ 128.
+Proof. rewrite HALF_val. reflexivity. Qed.
+
+Lemma grow_loop_spec : forall mem fuel m,
+    m < mem -> mem <= HALF -> mem * 2 ^ N.of_nat fuel < (m + 1) * 3 ^ N.of_nat fuel ->
+    exists m', grow_loop fuel m mem = Ok m' /\ mem <= m' /\ m' < W.
 Proof.
-  intros siz i H. unfold slot_of.
-  destruct (N.eqb_spec siz 0) as [E|E]; [lia|].
-  rewrite N.mul_comm, N.mod_mul by lia. cbn [N.eqb].
-  rewrite N.div_mul by lia. reflexivity.
+  intros mem. pose proof HALF_lt_W as HW. rewrite HALF_val, W_val in *.
+  induction fuel as [|f IH]; intros m Hm Hmem Hf.
+  - cbn in Hf. lia.
+  - cbn [grow_loop]. cbv zeta.
+    assert (E : wadd m (wadd (m / 2) 1) = m + m / 2 + 1).
+    { rewrite (wadd_eq (m / 2) 1) by (rewrite W_val; lia). rewrite wadd_eq by (rewrite W_val; lia). lia. }
+    rewrite E. set (m' := m + m / 2 + 1).
+    destruct (N.ltb_spec m' mem) as [Hlt|Hge].
+    + apply IH; [exact Hlt|exact Hmem|].
+      rewrite Nat2N.inj_succ, !N.pow_succ_r' in Hf.
+      set (A := 2 ^ N.of_nat f) in *. set (B := 3 ^ N.of_nat f) in *.
+      assert (K : 3 * (m + 1) <= 2 * (m' + 1)) by (unfold m'; lia).
+      pose proof (N.mul_le_mono_r _ _ B K) as K2. nia.
+    + exists m'. split; [reflexivity|]. split; [lia|]. unfold m'. lia.
+Qed.
+
+Lemma size_up8_spec : forall m, m + 7 < W -> m <= size_up8 m /\ size_up8 m <= m + 7 /\ size_up8 m mod 8 = 0.
+Proof.
+  intros m H. unfold size_up8. rewrite wadd_eq by exact H.
+  split; [lia|]. split; [lia|]. apply N.mod_mul. lia.
+Qed.
+
+Lemma size_down8_spec : forall n, size_down8 n <= n /\ n < size_down8 n + 8 /\ size_down8 n mod 8 = 0.
+Proof. intros n. unfold size_down8. split; [lia|]. split; [lia|]. apply N.mod_mul. lia. Qed.
+
+Lemma resize_grow : forall siz sl k, 0 < siz -> (length sl <= N.to_nat k)%nat ->
+    resize_slots siz sl (siz * k) = sl ++ repeat (junk_elem siz) (N.to_nat k - length sl).
+Proof.
+  intros siz sl k Hs Hk. unfold resize_slots.
+  replace (siz * k / siz) with k by (rewrite N.mul_comm, N.div_mul; lia).
+  rewrite firstn_all2 by lia. reflexivity.
+Qed.
+
+Lemma vec_setm_spec : forall h v mem, vec_inv v ->
+    exists h' v' rc ev, vec_setm h v mem = Ok (h', v', rc, ev)
+      /\ ((rc = A_SUCCESS /\ vec_inv v' /\ mem <= a_mem (v_arr v')
+           /\ a_mem (v_arr v) <= a_mem (v_arr v')
+           /\ a_siz (v_arr v') = a_siz (v_arr v) /\ a_num (v_arr v') = a_num (v_arr v)
+           /\ abs (v_arr v') = abs (v_arr v))
+          \/ (rc = A_OMEMORY /\ v' = v /\ a_mem (v_arr v) < mem)).
+Proof.
+  intros h v mem [I Hp]. set (a := v_arr v) in *.
+  pose proof (inv_siz a I) as Hs. pose proof (inv_num a I) as Hn. pose proof (inv_len a I) as Hl.
+  pose proof (inv_bytes a I) as Hb. pose proof HALF_lt_W as HW.
+  pose proof (inv_elem a I) as He. pose proof (mem_lt_half a I) as Hm.
+  unfold vec_setm. fold a.
+  destruct (N.ltb_spec (a_mem a) mem) as [Hgrow|Hok].
+  2:{ exists h, v, A_SUCCESS, []. split; [reflexivity|]. left. fold a. splits; auto; try lia. split; auto. }
+  set (mx := size_down8 ((HALF - 1) / a_siz a)).
+  destruct (size_down8_spec ((HALF - 1) / a_siz a)) as [D1 [D2 D3]]. fold mx in D1, D2, D3.
+  assert (Hmx : a_siz a * mx < HALF).
+  { assert (a_siz a * ((HALF - 1) / a_siz a) <= HALF - 1) by (apply N.mul_div_le; lia).
+    pose proof (mul_le_l (a_siz a) mx _ D1). rewrite HALF_val in *. lia. }
+  assert (Hmx2 : mx < HALF).
+  { assert (1 * mx <= a_siz a * mx) by (apply N.mul_le_mono_r; lia). lia. }
+  destruct (N.ltb_spec mx mem) as [Hbig|Hfit].
+  { exists h, v, A_OMEMORY, []. split; [reflexivity|]. right. auto. }
+  destruct (grow_loop_spec mem 128 (a_mem a)) as [m [Eg [G1 G2]]]; [exact Hgrow|lia| |].
+  { pose proof pow_fuel. change (N.of_nat 128) with 128.
+    assert (mem * 2 ^ 128 <= HALF * 2 ^ 128) by (apply N.mul_le_mono_r; lia).
+    assert (1 * 3 ^ 128 <= (a_mem a + 1) * 3 ^ 128) by (apply N.mul_le_mono_r; lia). lia. }
+  rewrite Eg. cbn [bind].
+  (* the loop ends below 3/2 * mem + 1, far from wrapping *)
+  assert (G3 : m + 7 < W).
+  { clear - Eg Hgrow Hfit Hmx2 HW G1. rewrite HALF_val, W_val in *.
+    (* m is the first value >= mem of a sequence whose previous value was < mem *)
+    assert (forall fuel m0 m1, m0 < mem -> grow_loop fuel m0 mem = Ok m1 -> m1 <= mem + mem / 2 + 1) as Hup.
+    { induction fuel as [|f IH]; intros m0 m1 H0 E; [discriminate|].
+      cbn [grow_loop] in E. cbv zeta in E.
+      assert (E' : wadd m0 (wadd (m0 / 2) 1) = m0 + m0 / 2 + 1).
+      { rewrite (wadd_eq (m0 / 2) 1) by (rewrite W_val; lia). rewrite wadd_eq by (rewrite W_val; lia). lia. }
+      rewrite E' in E. destruct (N.ltb_spec (m0 + m0 / 2 + 1) mem) as [Hlt|Hge].
+      - apply (IH _ _ Hlt E).
+      - injection E as <-. lia. }
+    pose proof (Hup _ _ _ Hgrow Eg). lia. }
+  destruct (size_up8_spec m G3) as [U1 [U2 U3]].
+  set (mem1 := size_up8 m) in *.
+  set (mem2 := if mx <? mem1 then mx else mem1).
+  assert (M2 : mem <= mem2 /\ mem2 <= mx).
+  { unfold mem2. destruct (N.ltb_spec mx mem1); lia. }
+  assert (Eb : wmul (a_siz a) mem2 = a_siz a * mem2).
+  { apply wmul_eq. pose proof (mul_le_l (a_siz a) mem2 mx). lia. }
+  rewrite Eb.
+  destruct (a_alloc h (v_ptr v) (a_siz a * mem2)) as [[p h'] ev].
+  destruct p as [id|].
+  - eexists. eexists. eexists. eexists. split; [reflexivity|]. left.
+    assert (Hlen : length (a_sl a) = N.to_nat (a_mem a)) by (unfold nlen in *; lia).
+    rewrite resize_grow by lia.
+    splits; cbn [v_arr v_ptr a_siz a_mem a_num a_sl]; auto; try lia.
+    + split; cbn [v_arr v_ptr]; [|discriminate].
+      constructor; cbn [a_siz a_mem a_num a_sl]; auto.
+      * lia.
+      * unfold nlen in *. rewrite app_length, repeat_length. lia.
+      * pose proof (mul_le_l (a_siz a) mem2 mx). lia.
+      * rewrite Forall_app. split; [assumption|apply Forall_repeat, junk_ok].
+    + unfold abs. cbn [a_num a_sl]. apply nth_error_ext; intro k. ne_norm. ne_split; ne_leaf.
+  - eexists. eexists. eexists. eexists. split; [reflexivity|]. right. auto.
 Qed.
